@@ -397,6 +397,8 @@ func (host *vmContext) ExecuteOnDestContext(destination []byte, sender []byte, v
 		host.mergeContext(currContext)
 	}()
 
+	// storageUpdate is shared with the caller's context, so it has to be put back by hand if the call fails
+	storageBeforeCall := host.copyStorageUpdate()
 	host.softCleanCache()
 	host.SetSCAddress(callInput.RecipientAddr)
 
@@ -419,11 +421,35 @@ func (host *vmContext) ExecuteOnDestContext(destination []byte, sender []byte, v
 	} else {
 		// all changes must be deleted
 		host.outputAccounts = make(map[string]*vmcommon.OutputAccount)
+		host.restoreStorageUpdate(storageBeforeCall)
 	}
 	vmOutput.ReturnCode = returnCode
 	vmOutput.ReturnMessage = host.returnMessage
 
 	return vmOutput, nil
+}
+
+func (host *vmContext) copyStorageUpdate() map[string]map[string][]byte {
+	storageCopy := make(map[string]map[string][]byte, len(host.storageUpdate))
+	for address, storage := range host.storageUpdate {
+		storageCopy[address] = make(map[string][]byte, len(storage))
+		for key, value := range storage {
+			storageCopy[address][key] = value
+		}
+	}
+
+	return storageCopy
+}
+
+// restoreStorageUpdate puts back the given storage updates. The map itself is kept, as the contexts saved by
+// the callers up the stack hold a reference to it
+func (host *vmContext) restoreStorageUpdate(storageCopy map[string]map[string][]byte) {
+	for address := range host.storageUpdate {
+		delete(host.storageUpdate, address)
+	}
+	for address, storage := range storageCopy {
+		host.storageUpdate[address] = storage
+	}
 }
 
 // Finish append the value to the final output
